@@ -339,6 +339,97 @@ pub fn run(tier: Tier) -> i32 {
             }
         });
     }
+    // a syntax error ON a structural line (garbage behind `.endm`, `.endif`, `.else`, `.if ...`,
+    // `.macro ...`): the build fails and names that line, whether the line is reached while
+    // assembling, while skipping an unselected arm, or while collecting a macro body
+    let n_structural = AtomicU64::new(0);
+    {
+        let skeleton: [&str; 19] = [
+            ".equ k_sk = 1",
+            ".macro mm_sk",
+            "ldi r16, 1",
+            ".endm",
+            "mm_sk",
+            ".if k_sk == 1",
+            "ldi r17, 2",
+            ".else",
+            "ldi r17, 3",
+            ".endif",
+            ".if k_sk == 0",
+            "ldi r18, 4",
+            ".else",
+            "ldi r18, 5",
+            ".endif",
+            ".ifdef nothing_defined_sk",
+            "ldi r19, 6",
+            ".endif",
+            "ldi r20, 7",
+        ];
+        // (not ` name name`: the operand grammar of directives is lenient about blank-separated
+        // names, and what a syntax error is, is for the grammar to say)
+        let garbage = [" $$$", " )(", " \"unterminated", " ,", " = = 1"];
+        let spell: [fn(&str) -> String; 4] = [
+            |l| l.to_string(),
+            |l| l.to_uppercase(),
+            |l| if l == ".endm" { ".endmacro".to_string() } else { l.replacen('.', "#", 1) },
+            |l| format!("lb_sk_{}: {}", l.len(), l),
+        ];
+        let mut work: Vec<(usize, usize, usize)> = vec![];
+        for (li, l) in skeleton.iter().enumerate() {
+            if l.starts_with('.') && !l.starts_with(".equ") {
+                for g in 0..garbage.len() {
+                    for sp in 0..spell.len() {
+                        work.push((li, g, sp));
+                    }
+                }
+            }
+        }
+        // the skeleton itself must build in every spelling of each single line
+        work.par_iter().for_each(|(li, g, sp)| {
+            let l = skeleton[*li];
+            // `#` spells conditional directives only; a label in front of .macro / .endm is not
+            // part of this skeleton
+            if *sp == 2 && (l.starts_with(".macro") ) || *sp == 3 && (l.starts_with(".macro") || l.starts_with(".endm")) {
+                return;
+            }
+            let written = spell[*sp](l);
+            let mk = |suffix: &str| -> (String, usize) {
+                let mut lines: Vec<String> = (0..30).map(|i| format!("; filler {}", i)).collect();
+                let mut at = 0;
+                for (i, sl) in skeleton.iter().enumerate() {
+                    if i == *li {
+                        lines.push(format!("{}{}", written, suffix));
+                        at = lines.len();
+                    } else {
+                        lines.push(sl.to_string());
+                    }
+                }
+                (lines.join("\n") + "\n", at)
+            };
+            let (clean, _) = mk("");
+            if !sut::build_str(&clean).is_ok() {
+                // this spelling of the line is not valid here: nothing to decide
+                return;
+            }
+            let (text, fault_line) = mk(garbage[*g]);
+            let o = sut::build_str(&text);
+            evals.fetch_add(1, Ordering::Relaxed);
+            n_structural.fetch_add(1, Ordering::Relaxed);
+            let bad: Option<(&str, String)> = match &o {
+                Outcome::Err(e) if has_number_token(e, fault_line) => None,
+                Outcome::Err(e) => Some(("no-line", format!("the error does not name line {}: {}", fault_line, e))),
+                Outcome::Ok(b) => Some(("accepted", format!("the build succeeds (image {})", sut::hex_trunc(&b.code, 24)))),
+                Outcome::Panic { site, msg } => Some(("panic", format!("panic at {}: {}", site, msg))),
+            };
+            if let Some((kind, what)) = bad {
+                let dname: String = l.trim_start_matches('.').chars().take_while(|c| c.is_ascii_alphabetic()).collect();
+                rep.violation(&format!("C15/{}/malformed-structural-line/directive={}/skeleton-line={}", kind, dname, li + 1), || format!("`{}{}` as line {} (the line is valid without the trailing text): {}", written, garbage[*g], fault_line, what), || {
+                    json!({"kind": "build_str", "source": text, "fault_line": fault_line, "expected": format!("err whose text contains the number {}", fault_line), "observed": o.to_json()})
+                });
+            }
+        });
+    }
+    rep.guard(n_structural.load(Ordering::Relaxed) >= 100, "fewer than 100 malformed structural lines were decided");
     // messages: all 4^5 placements over the five slots of the skeleton
     let slot_text = |kind: usize, slot: usize| -> Option<String> {
         match kind {
@@ -565,6 +656,7 @@ pub fn run(tier: Tier) -> i32 {
         "operand_faults_of_every_mnemonic_programs": n_per_mnemonic.load(Ordering::Relaxed),
         "message_placements_in_the_elif_skeleton": n_msg_b.load(Ordering::Relaxed),
         "faults_inside_a_called_macro_body": n_in_macro.load(Ordering::Relaxed),
+        "malformed_structural_lines": n_structural.load(Ordering::Relaxed),
         "caps_hit": [],
         "trusted_base": ["harness lexer for liveness/segment context", "decimal token match"],
     }));
